@@ -404,9 +404,10 @@ def run(ctx):
                        "with the implementation on EVERY flow; anything else is a violation")
     ctx.cov["trusted_base"] = vf.TRUSTED_COMMON + [
         "strict iptables/ipset fakes harness/nfake (shared with C14/C15); the packet walk (Model/K8sPolicy.v verdict) is the "
-        "model of the kernel's filter traversal for a NEW tcp/udp connection: -s/-d, -p, -m set (hash:ip, hash:net with nomatch "
-        "taking precedence over every other element - the real kernel lets the most specific element decide, which differs only "
-        "when a block lies inside another block's except), -m multiport --dports, conntrack rules never match",
+        "model of the kernel's filter traversal for a NEW tcp/udp connection: -s/-d, -p, -m set (hash:ip; hash:net with the "
+        "kernel's rule: among the elements containing the address the most specific one decides, a nomatch element meaning "
+        "no match - so a plain block lying inside another block's except still matches), -m multiport --dports, conntrack "
+        "rules never match",
         "the reference k8s_allows is hand-written from the NetworkPolicy API documentation (DESIGN.md appendix D)",
         "nameHash is read from the implementation (sha256/base32 not modelled); the full statement assumes it injective"]
     ctx.assumptions += ["pod IPs unique, every pod has an IP and a namespace object, numeric TCP/UDP ports, matchLabels selectors "
